@@ -569,6 +569,42 @@ func (u *Unit) havocAll(st *State) {
 	st.comp["alloc"] = n
 }
 
+// havocObject havocs the fields of one object (all addresses with its root id) and nothing else: what a callee may
+// do to a value it receives as an interface of unknown dynamic type (same shallow reading as a typed pointee()).
+func (u *Unit) havocObject(st *State, root Term) {
+	prev := st.clone()
+	a := u.get(st, "alloc")
+	u.epoch++
+	if u.epochFrames == nil {
+		u.epochFrames = map[int]*epochFrame{}
+	}
+	u.epochFrames[u.epoch] = &epochFrame{prev: prev, root: root}
+	keep := map[string]Term{}
+	var names []string
+	for k := range u.compSort {
+		if isGhostTrace(k) {
+			keep[k] = u.get(st, k)
+		} else if k != "alloc" {
+			names = append(names, k)
+		}
+	}
+	for k, v := range st.comp {
+		if isGhostTrace(k) {
+			keep[k] = v
+		}
+	}
+	st.comp = keep
+	st.epoch = u.epoch
+	n := u.fresh("alloc", "Int")
+	u.assume("(>= " + n + " " + a + ")")
+	st.comp["alloc"] = n
+	// components known so far are related to their previous versions now (a later merge starts a new epoch)
+	sort.Strings(names)
+	for _, k := range names {
+		st.comp[k] = u.get(st, k)
+	}
+}
+
 // escapes reports whether the address of a local variable leaves the function (is passed, stored, returned or
 // converted); only then can a callee change it.
 func allocEscapes(a *ssa.Alloc) bool {
